@@ -40,7 +40,7 @@ CONFIG = dict(
     min_nontrivial={"quick": 1500, "thorough": 20000},
     nshards={"quick": 8, "thorough": 16},
     timeout={"quick": 900, "thorough": 5400},
-    required_counters=("gate_checks", "returned_loads_compared", "nonreturning_effect_checks",
+    required_counters=("rewritten_file_loads", "gate_checks", "returned_loads_compared", "nonreturning_effect_checks",
                        "failpoints_fired", "toctou_swaps", "executed_vs_analysed_compared", "sequence_probes"),
 )
 
@@ -702,8 +702,82 @@ def setup(ctx):
     return (fickling, f, analysis, loader, hook, UnsafeFileError), watch
 
 
+def file_rewrite_histories(ctx, mods):
+    """One path on disk, loaded through the checked loader, rewritten in place (same inode, same size, modification time
+    put back) with other content, loaded again: each load is judged on the bytes it finds - whatever the loader
+    remembers about a *file* does not stand for its *content*."""
+    import vp_sink
+    fickling, f, analysis, loader, hook, U = mods
+    agg = ctx.agg
+    benign = [pickle.dumps([1, 2, {"k": "v"}], 2), pickle.dumps({"w": list(range(50))}, 4), b"(lp0\nI1\naI2\na."]
+    flagged = b"cvp_sink\nhit\n(S'SWAPPED'\ntR."
+    idx = 0
+    for bi, good in enumerate(benign):
+        for path_kind in ("loader", "hook", "context"):
+            for order in ("benign-then-flagged", "flagged-then-benign", "benign-benign-flagged"):
+                idx += 1
+                if idx % ctx.nshards != ctx.shard:
+                    continue
+                size = max(len(good), len(flagged)) + 16
+                contents = {"b": good + b"\x00" * (size - len(good)), "f": flagged + b"\x00" * (size - len(flagged))}
+                seq = {"benign-then-flagged": "bf", "flagged-then-benign": "fb", "benign-benign-flagged": "bbf"}[order]
+                p = os.path.join(ctx.scratch, "c02_rewritten.pkl")
+                key = h(f"rewrite|{bi}|{path_kind}|{order}".encode())
+                agg.case(key, True, {"label": "file-rewritten-in-place", "path": path_kind, "order": order})
+                w = {"label": "file-rewritten-in-place", "path": path_kind, "order": order, "size": size}
+                stamp = None
+                try:
+                    for step, which in enumerate(seq):
+                        if stamp is None:
+                            with open(p, "wb") as fh:
+                                fh.write(contents[which])
+                            st = os.stat(p)
+                            stamp = (st.st_atime_ns, st.st_mtime_ns)
+                        else:
+                            with open(p, "r+b") as fh:
+                                fh.write(contents[which])
+                            os.utime(p, ns=stamp)
+                        del vp_sink.LOG[:]
+                        try:
+                            with open(p, "rb") as fh:
+                                if path_kind == "loader":
+                                    fickling.load(fh)
+                                elif path_kind == "hook":
+                                    fickling.always_check_safety()
+                                    try:
+                                        pickle.load(fh)
+                                    finally:
+                                        hook.remove_hook()
+                                else:
+                                    with fickling.check_safety():
+                                        pickle.load(fh)
+                            res = "returned"
+                        except U:
+                            res = "blocked"
+                        except Exception as e:
+                            res = "other:" + type(e).__name__
+                        ran = bool(vp_sink.LOG)
+                        del vp_sink.LOG[:]
+                        agg.count("rewritten_file_loads")
+                        if which == "f" and (ran or res == "returned"):
+                            agg.violation(f"returned-above-threshold:{path_kind}:file-rewritten-in-place",
+                                          f"load #{step + 1} of a file rewritten in place ({order}): the flagged content {res}"
+                                          f"{' and ran' if ran else ''}", dict(w, step=step + 1))
+                            break
+                        if which == "b" and res != "returned":
+                            agg.violation(f"refused-at-or-below-threshold:{path_kind}:file-rewritten-in-place",
+                                          f"load #{step + 1} of a file rewritten in place ({order}): the benign content was {res}",
+                                          dict(w, step=step + 1))
+                            break
+                finally:
+                    hook.remove_hook()
+                    if os.path.exists(p):
+                        os.remove(p)
+
+
 def run_shard(ctx):
     mods, watch = setup(ctx)
+    file_rewrite_histories(ctx, mods)
     for i, c in enumerate(cases(ctx, mods)):
         if i % ctx.nshards != ctx.shard:
             continue
